@@ -247,6 +247,20 @@ fn on_pending(w: &mut World, o: &ExecOpts, started: u64) -> Pend {
                 );
                 return Pend::Cancel;
             }
+            // timing profile: let inbound traffic arrive exactly around the client's own deadline
+            if w.cfg.profile == Profile::Timing && !w.benign && !w.twin_mode {
+                if let Some(t) = wake {
+                    if t > now + 2 && w.tape.chance(1, 12) {
+                        let d = t - now - 1 + w.tape.choose(3) as u64;
+                        w.force_delay = Some(d);
+                        let cur = w.cur;
+                        if crate::broker::broker_publish(w, cur) {
+                            w.probe("inbound_around_client_deadline");
+                        }
+                        w.force_delay = None;
+                    }
+                }
+            }
             let next_ev = w.next_event_time();
             if o.cancellable && !w.benign && { let p = w.cfg.p_cancel; w.s_chance(p, 1000) } {
                 w.fault("cancel_at_read_or_timer");
@@ -444,10 +458,35 @@ pub fn gen_publish(w: &mut World, qos: u8) -> PubSpec {
         topic.push('/');
         topic.push_str(&"p".repeat(pad));
     }
-    let n = payload_len(w);
+    let mut n = payload_len(w);
+    let mut long_field = 0usize; // 0 none, else length of one over-long / boundary field
+    if w.cfg.big > 0 {
+        match w.tape.choose(6) {
+            0 => n = 16_360 + w.tape.choose(40) as usize,
+            1 if w.cfg.big == 2 => n = 2_097_130 + w.tape.choose(40) as usize,
+            2 => long_field = 65_535,
+            3 => long_field = 65_536,
+            _ => {}
+        }
+    }
+    if long_field > 0 && w.tape.chance(1, 2) {
+        // the topic itself is the boundary field
+        let have = topic.len();
+        if long_field > have + 1 {
+            topic.push('/');
+            topic.push_str(&"p".repeat(long_field - have - 1));
+        }
+        long_field = 0;
+        w.probe("topic_at_64k_boundary");
+    }
     let payload: Vec<u8> = (0..n).map(|i| (tag as usize * 31 + i) as u8).collect();
     let retain = w.tape.chance(1, 5);
     let mut props = gen_pub_props(w);
+    if long_field > 0 {
+        props.retain(|p| p.id != 0x09);
+        props.push(Prop { id: 0x09, val: PVal::Bin(vec![0xAB; long_field]) });
+        w.probe("property_at_64k_boundary");
+    }
     let correlate = if w.tape.chance(1, 8) {
         props.retain(|p| p.id != 0x09);
         Some(vec![tag as u8, 0xC0, 0x44])
@@ -568,7 +607,8 @@ fn label(w: &mut World, l: &'static str) {
     w.offered_now.clear();
     *w.stats.ops.entry(l).or_insert(0) += 1;
     w.kind(50 + (crate::util::fnv(l.as_bytes()) % 40) as u8);
-    w.log(|| format!("app: {}", l));
+    let e = w.expect;
+    w.log(|| format!("app: {}{}", l, if e.is_some() { format!("   [expectation pending: {:?}]", e) } else { String::new() }));
 }
 
 fn std_opts(w: &mut World, cancellable: bool) -> ExecOpts {
@@ -591,13 +631,28 @@ fn check_result(w: &mut World, op: &'static str, res: &Res, was_live: bool, io_e
         w.results.push(format!("{}:{}", op, res.name()));
     }
     let cur = w.cur;
-    let expect = w.expect.take();
+    let mut expect = w.expect.take();
+    if expect.is_some() {
+        w.log(|| format!("     (pending expectation: {:?})", expect));
+    }
+    if matches!(expect, Some(Expect::Invalid) | Some(Expect::InvalidOrEof)) && !res.is_fatal() {
+        // Operations that do not read cannot have noticed malformed inbound bytes yet, and a
+        // reading operation may return for other progress before it has read all of them.
+        let unread = w.conns[cur].rx_consumed < w.conns[cur].rx_total_enqueued;
+        if unread || !matches!(op, "poll" | "recv" | "connect") {
+            w.expect = expect;
+            expect = None;
+        }
+    }
     let io_err_now = w.conns[cur].io_error.is_some() && !io_err_before;
     if *res == Res::Cancelled {
         if matches!(expect, Some(Expect::Invalid) | Some(Expect::InvalidOrEof)) && w.conns[cur].rx_consumed < w.conns[cur].rx_total_enqueued {
             // only the beginning of the malformed bytes was read so far: verdict when the
             // operation that reads the rest returns
             w.expect = expect;
+            return;
+        }
+        if matches!(expect, Some(Expect::MaybeReject(_))) {
             return;
         }
         if let Some(e) = expect {
@@ -620,6 +675,17 @@ fn check_result(w: &mut World, op: &'static str, res: &Res, was_live: bool, io_e
                 );
             }
         }
+        Some(Expect::MaybeReject(code)) => {
+            if let Res::Rejected(c) = res {
+                if *c != code {
+                    w.violate(
+                        "C18",
+                        format!("wrong-failure-code-surfaced/op={op}"),
+                        format!("{op} consumed a duplicate acknowledgement with reason {code:#x} but returned Rejected({c:#x})"),
+                    );
+                }
+            }
+        }
         Some(Expect::Disconnected) => {
             if *res != Res::Disconnected && !io_err_now {
                 w.violate(
@@ -639,7 +705,9 @@ fn check_result(w: &mut World, op: &'static str, res: &Res, was_live: bool, io_e
             }
         }
         Some(Expect::Invalid) => {
-            if *res != Res::InvalidPacket && !io_err_now {
+            // (a keep-alive timeout that is due before the rest of the bytes is read wins)
+            let ping_timeout = *res == Res::Disconnected && w.conns[cur].pingreq_outstanding.is_some_and(|t0| clock::now() >= t0 + 5 * US_PER_S);
+            if *res != Res::InvalidPacket && !io_err_now && !ping_timeout {
                 w.violate(
                     "C08",
                     format!("malformed-not-rejected/op={op}"),
@@ -830,16 +898,6 @@ fn after_op(conn: &Conn<'_, '_>) {
     with(|w| note_state(w, live, q));
 }
 
-fn will_from_cfg<'a>(cfg: &'a RunCfg, props: &'a [Property<'a>]) -> Option<Will<'a>> {
-    let c = cfg.will.as_ref()?;
-    let mut will = Will::new(&c.topic, &c.payload, props).ok()?;
-    will = will.qos(qos_of(c.qos));
-    if c.retain {
-        will = will.retained();
-    }
-    Some(will)
-}
-
 pub fn do_publish(conn: &mut Conn<'_, '_>, spec: &PubSpec) -> Res {
     let (was_live, io_err_before, eff_qos) = with(|w| {
         label(w, match spec.qos {
@@ -871,6 +929,11 @@ pub fn do_publish(conn: &mut Conn<'_, '_>, spec: &PubSpec) -> Res {
         payload: spec.payload.clone(),
     };
     let ri = with(|w| register_req(w, spec.tag, ReqKind::Pub, eff_qos, expected, false));
+    let overlong = spec.topic.len() > 65_535 || spec.props.iter().any(|p| matches!(&p.val, PVal::Bin(b) if b.len() > 65_535) || matches!(&p.val, PVal::Str(s) if s.len() > 65_535));
+    if overlong {
+        // a field longer than 65535 bytes cannot be encoded: refused, nothing truncated is sent
+        with(|w| w.reqs[ri].must_refuse = true);
+    }
     let quiescent_before = conn.session().is_publish_quiescent();
     let mprops: Vec<Property<'_>> = spec.props.iter().map(to_minimq).collect();
     // twin runs never cancel a QoS 0 publish (documented as not cancel-safe)
@@ -911,7 +974,9 @@ pub fn do_publish(conn: &mut Conn<'_, '_>, spec: &PubSpec) -> Res {
     with(|w| {
         check_result(w, "publish", &res, was_live, io_err_before);
         settle_req(w, ri, &res, handle);
-        if res == Res::Cancelled && eff_qos == 0 {
+        if (res == Res::Cancelled || res == Res::WriteZero) && eff_qos == 0 {
+            // not cancel-safe / a contract-violating transport: part of the packet may be on the
+            // wire and is not tracked, the application must give the connection up
             w.qos0_cancelled = true;
         }
         // C19: the handle matches the QoS actually used
@@ -923,6 +988,9 @@ pub fn do_publish(conn: &mut Conn<'_, '_>, spec: &PubSpec) -> Res {
                 format!("publish at effective QoS {q} returned no handle"),
             ),
             _ => {}
+        }
+        if overlong && matches!(res, Res::Ok | Res::OkOp) {
+            w.violate("C09", "overlong-field-accepted".into(), format!("publish with a field longer than 65535 bytes returned {}", res.name()));
         }
         if spec.payload_fails && matches!(res, Res::Ok | Res::OkOp) {
             w.violate("C09", "payload-error-ignored".into(), format!("payload serializer failed but publish returned {}", res.name()));
@@ -1078,6 +1146,14 @@ fn check_delivery(w: &mut World, d: &Delivered) {
     if w.raw_mode {
         return;
     }
+    // a delivery the model left open?
+    if let Some(pos) = w.conns[cur].optional_deliver.iter().position(|bi| w.bmsgs[*bi].topic == d.topic) {
+        let front_matches = w.conns[cur].expect_deliver.front().is_some_and(|bi| w.bmsgs[*bi].topic == d.topic);
+        if !front_matches {
+            w.conns[cur].optional_deliver.remove(pos);
+            return;
+        }
+    }
     let Some(bi) = w.conns[cur].expect_deliver.pop_front() else {
         w.violate(
             "C04",
@@ -1209,6 +1285,52 @@ pub fn do_wait(conn: &mut Conn<'_, '_>, kind: Wait, opts: Option<ExecOpts>) -> R
                 w.conns[cur].expect_deliver.clear();
             }
         }
+        // C10 (3): an unanswered PINGREQ must end a continuous wait at the 5 s bound
+        if w.cfg.profile == Profile::Timing && !matches!(res, Res::Disconnected | Res::Transport(_) | Res::InvalidPacket) {
+            if let (Some(t0), Some(since)) = (w.conns[cur].pingreq_outstanding, w.app_waiting_since) {
+                if since <= t0 && clock::now() > t0 + 5 * US_PER_S + 2 * US_PER_MS && w.conns[cur].established {
+                    w.violate(
+                        "C10",
+                        format!("keepalive-timeout-missed/after={}", res.name()),
+                        format!(
+                            "PINGREQ completed at t={} is unanswered, the application kept waiting, it is now t={} and {opname} returned {} instead of Disconnected",
+                            t0,
+                            clock::now(),
+                            res.name()
+                        ),
+                    );
+                    w.conns[cur].pingreq_outstanding = None;
+                }
+            }
+        }
+        // C16: poll()/recv() may only park with nothing to do when nothing is left to send
+        if res == Res::Cancelled && w.last_cancel_idle && w.conns[cur].established && !w.ids_ambiguous && kind != Wait::Drive && !w.raw_mode {
+            let ep = w.epoch;
+            let unsent = w.reqs.iter().find(|r| {
+                r.epoch == ep
+                    && !r.invalidated
+                    && !r.ambiguous
+                    && r.accept == Accept::Accepted
+                    && r.qos > 0
+                    && r.phase == Phase::AwaitAck
+                    && (r.conn_issued == cur || w.conns[cur].must_replay.contains(&r.tag))
+                    && r.tx_by_conn.get(&cur).copied().unwrap_or(0) == 0
+            });
+            if let Some(r) = unsent {
+                let tag = r.tag;
+                w.violate(
+                    "C16",
+                    "parked-with-unsent-packet".into(),
+                    format!("{opname} waits for input with nothing to wake it although accepted request tag {tag} has not been sent on this connection"),
+                );
+            } else if let Some(&(t, id, _)) = w.conns[cur].owed_acks.front() {
+                w.violate(
+                    "C16",
+                    format!("parked-with-unsent-ack/{}", codec::type_name_of(t)),
+                    format!("{opname} waits for input with nothing to wake it although the acknowledgement {} {id} is still owed", codec::type_name_of(t)),
+                );
+            }
+        }
         if res == Res::Cancelled && w.last_cancel_idle && w.conns[cur].established && w.conns[cur].session_present && !w.ids_ambiguous && kind != Wait::Drive {
             // The client sits idle on a resumed connection: everything that was unacknowledged
             // when the session was resumed must have been retransmitted by now.
@@ -1303,6 +1425,7 @@ pub fn do_disconnect(conn: &mut Conn<'_, '_>, spec: &DiscSpec) -> Res {
 pub fn dead_handle_probe(conn: &mut Conn<'_, '_>) {
     let n = with(|w| {
         w.must_be_dead = true;
+        w.expect = None; // nothing further is read on a dead handle
         w.probe("dead_handle_probe");
         1 + w.tape.choose(6)
     });
